@@ -222,7 +222,7 @@ def documents(ctx):
         yield "hand", d
         # one malformation
         d = copy.deepcopy(doc)
-        kind = rng.randrange(11)
+        kind = rng.randrange(13)
         g.count("json_malformed", kind)
         feats = []
 
@@ -268,4 +268,11 @@ def documents(ctx):
                 t["operands"] = [rng.choice([None, ["Bcd"], {"k": 1}])]
             else:
                 t["operands"] = "Bcd"
+        elif kind == 11:
+            f["name"] = rng.choice([1, True, None, 1.5, ["n"]])
+        elif kind == 12 and rels:
+            rel = rng.choice(rels)
+            rel["type"] = "CARDINALITY"
+            rel["card_min"] = rng.choice([1.0, True, "1", None, [1]])
+            rel["card_max"] = rng.choice([2, 2.0])
         yield "malformed", d
